@@ -76,7 +76,15 @@ type Block struct {
 	// Ctx: 0 background, 1 already cancelled, 2 expires after TimeoutMs
 	Ctx       int `json:"ctx"`
 	TimeoutMs int `json:"to"`
+	// Retry: 0 = a new block; k>0 = submit block k-1 again with IDENTICAL
+	// arguments (same bytes, same tip) unless one of its earlier attempts
+	// succeeded, in which case this entry is skipped.  The identity of a block
+	// (monitor, verdicts) is the index of its first attempt.
+	Retry int `json:"retry,omitempty"`
 }
+
+// ErrSkipped marks a retry entry that was not executed.
+var ErrSkipped = errors.New("retry skipped: the block had already been submitted successfully")
 
 // Hold stops the goroutine that produces event (Kind, Stage) for the Nth
 // (0-based) distinct item passing there until the scenario releases it.
@@ -112,8 +120,9 @@ type Outcome struct {
 	AppliedSq []uint64 // their sequence numbers
 	Results   []uint64 // sequence numbers read from Results()
 	ResultIds []uint64
-	SubmitErr []error // per block
-	SubmitSeq []int64 // sequence number the successful submission got (-1 if failed)
+	SubmitErr []error  // per attempt (entry of Scenario.Blocks)
+	OkOrder   []uint64 // block ids in the order their Submit returned nil
+	SubmitSeq []int64  // sequence number the successful submission got (-1 if failed)
 	Outst     int
 	Viol      []Viol
 	StopDur   time.Duration
@@ -250,7 +259,14 @@ func Run(sc Scenario) (out *Outcome) {
 		t       uint64
 	}
 	var applies []applyObs
-	subDone := make([]uint64, len(sc.Blocks)) // clock when Submit returned nil (0 = not / failed)
+	subDone := make([]uint64, len(sc.Blocks)) // per block id: clock when a Submit of it returned nil (0 = never)
+	okID := make([]bool, len(sc.Blocks))      // per block id: some attempt succeeded
+	rootOf := func(b int) int {
+		for sc.Blocks[b].Retry > 0 {
+			b = sc.Blocks[b].Retry - 1
+		}
+		return b
+	}
 	applyFn := func(it *pipeline.BlockItem) error {
 		id := it.Tip().BlockNumber
 		mu.Lock()
@@ -410,8 +426,15 @@ func Run(sc Scenario) (out *Outcome) {
 			gid := pipeline.VerifGid()
 			for b := range next {
 				blk := sc.Blocks[b]
-				raw := []byte{0xff, byte(b), byte(b >> 8)}
-				if blk.Decodes {
+				id := rootOf(b)
+				skip := false
+				if blk.Retry > 0 {
+					mu.Lock()
+					skip = okID[id]
+					mu.Unlock()
+				}
+				raw := []byte{0xff, byte(id), byte(id >> 8)}
+				if sc.Blocks[id].Decodes {
 					raw = good
 				}
 				ctx, cancel := context.Background(), context.CancelFunc(func() {})
@@ -423,15 +446,20 @@ func Run(sc Scenario) (out *Outcome) {
 					ctx, cancel = context.WithTimeout(context.Background(), time.Duration(blk.TimeoutMs)*time.Millisecond)
 				}
 				mu.Lock()
-				gidBlock[gid] = b
+				gidBlock[gid] = id
 				mu.Unlock()
-				err := p.Submit(ctx, uint(ledger.BlockTypeShelley), raw, pcommon.Tip{BlockNumber: uint64(b)})
+				err := ErrSkipped
+				if !skip {
+					err = p.Submit(ctx, uint(ledger.BlockTypeShelley), raw, pcommon.Tip{BlockNumber: uint64(id)})
+				}
 				cancel()
 				t := clk.tick()
 				mu.Lock()
 				out.SubmitErr[b] = err
 				if err == nil {
-					subDone[b] = t
+					subDone[id] = t
+					okID[id] = true
+					out.OkOrder = append(out.OkOrder, uint64(id))
 				}
 				mu.Unlock()
 				n := attempts.Add(1)
@@ -492,7 +520,7 @@ func Run(sc Scenario) (out *Outcome) {
 			if time.Now().After(deadline) {
 				hadFail := false
 				for _, e := range out.SubmitErr {
-					if e != nil {
+					if e != nil && e != ErrSkipped {
 						hadFail = true
 					}
 				}
@@ -557,8 +585,8 @@ func Run(sc Scenario) (out *Outcome) {
 		} else if sc.NV > 0 && !b.Valid {
 			out.Viol = append(out.Viol, Viol{"applied-invalid", fmt.Sprintf("block %d fails validation but ApplyFunc was called", a.id)})
 		}
-		if out.SubmitErr[a.id] != nil {
-			out.Viol = append(out.Viol, Viol{"applied-failed-submission", fmt.Sprintf("block %d: Submit returned %v but the block was applied", a.id, out.SubmitErr[a.id])})
+		if !okID[a.id] {
+			out.Viol = append(out.Viol, Viol{"applied-failed-submission", fmt.Sprintf("block %d: no Submit of it returned nil but the block was applied", a.id)})
 		}
 		if int64(a.seq) <= lastSeq {
 			out.Viol = append(out.Viol, Viol{"applied-out-of-order", fmt.Sprintf("ApplyFunc saw sequence %d after %d", a.seq, lastSeq)})
@@ -571,14 +599,20 @@ func Run(sc Scenario) (out *Outcome) {
 			}
 		}
 	}
-	// submission order (one submitter: block index order = submission order)
+	// submission order (one submitter: the order in which Submit returned nil)
 	if nsub == 1 {
-		last := -1
+		pos := map[uint64]int{}
+		for i, id := range out.OkOrder {
+			pos[id] = i
+		}
+		last, lastID := -1, uint64(0)
 		for _, a := range applies {
-			if int(a.id) < last {
-				out.Viol = append(out.Viol, Viol{"applied-not-in-submission-order", fmt.Sprintf("block %d applied after block %d", a.id, last)})
+			if q, ok := pos[a.id]; ok {
+				if q < last {
+					out.Viol = append(out.Viol, Viol{"applied-order-differs", fmt.Sprintf("block %d was applied after block %d but its Submit succeeded earlier (success order %v)", a.id, lastID, out.OkOrder)})
+				}
+				last, lastID = q, a.id
 			}
-			last = int(a.id)
 		}
 	}
 	rseen := map[uint64]bool{}
@@ -587,13 +621,13 @@ func Run(sc Scenario) (out *Outcome) {
 			out.Viol = append(out.Viol, Viol{"result-twice", fmt.Sprintf("block %d appeared twice on Results()", id)})
 		}
 		rseen[id] = true
-		if int(id) < len(sc.Blocks) && out.SubmitErr[id] != nil {
+		if int(id) < len(sc.Blocks) && !okID[id] {
 			out.Viol = append(out.Viol, Viol{"result-of-failed-submission", fmt.Sprintf("block %d", id)})
 		}
 	}
 	if !stoppedEarly && len(out.Viol) == 0 {
 		for b, blk := range sc.Blocks {
-			if out.SubmitErr[b] != nil {
+			if blk.Retry > 0 || !okID[b] {
 				continue
 			}
 			goodB := blk.Decodes && (sc.NV == 0 || blk.Valid)
